@@ -1643,6 +1643,16 @@ class _NPModule(types.ModuleType):
         raise AttributeError(f"module 'numpy' has no attribute {name!r}")
 
 
+def np_pad(a, pad_width, mode="constant", **kw):
+    """numpy.pad for the copying modes: the wrapped object array is padded by numpy itself (cells are copied, never computed with)"""
+    if mode not in ("constant", "edge", "wrap", "reflect", "symmetric"):
+        raise Unsupported(f"numpy.pad(mode={mode!r}) is not modelled by the symbolic numpy")
+    arr = a if isinstance(a, SA) else np_array(a)
+    if "constant_values" in kw:
+        kw["constant_values"] = _wrap(kw["constant_values"]) if not isinstance(kw["constant_values"], (tuple, list)) else kw["constant_values"]
+    return SA(rnp.pad(arr.a, pad_width, mode=mode, **kw), arr.kind)
+
+
 def build_module():
     m = _NPModule("numpy")
     m.__sx__ = True
@@ -1682,6 +1692,7 @@ def build_module():
     m.extract = lambda cond, a: (a if isinstance(a, SA) else np_array(a))[cond if isinstance(cond, SA) else np_array(cond)]
     m.mean = lambda a, axis=None: np_sum(a, axis=axis) / (a.size if axis is None else a.shape[axis])
     m.sort = lambda a, axis=-1, kind=None: (a if isinstance(a, SA) else np_array(a))[np_argsort(a)]
+    m.pad = np_pad
     m.copyto = np_copyto
     m.putmask = np_putmask
     m.append = np_append
